@@ -1,13 +1,31 @@
 #!/bin/bash
-# usage: tools/mutcheck.sh <patch.diff> <property id> [tier]   -- apply a seeded change to /repo, run the check, undo
+# usage: tools/mutcheck.sh <patch.diff> <property id> [tier]
+# Applies a seeded change to a tree, runs the check against it, undoes it.
+# Default tree: /repo itself.  With MUT_SCRATCH=1 a scratch worktree of /repo HEAD (under /root/scratch) is used instead,
+# so that other runs against /repo are not disturbed; the worktree is removed afterwards.
 set -u
 P="$(realpath "$1")"; ID="$2"; TIER="${3:-quick}"
-cd /repo || exit 9
-if [ -n "$(git status --porcelain --untracked-files=no)" ]; then echo "repo dirty"; exit 9; fi
-if ! git apply "$P" 2>/dev/null; then
-  if ! patch -p1 -s --fuzz=3 < "$P"; then echo "PATCH DOES NOT APPLY"; git checkout -- .; exit 9; fi
+if [ "${MUT_SCRATCH:-0}" = "1" ]; then
+  W=/root/scratch/mut_$$; mkdir -p /root/scratch
+  git -C /repo worktree add -q --detach "$W" HEAD || exit 9
+  T="$W"
+else
+  T=/repo
+  if [ -n "$(git -C /repo status --porcelain --untracked-files=no)" ]; then echo "repo dirty"; exit 9; fi
 fi
-cd /verif && timeout 3000 ./vcheck run "$ID" --tier "$TIER" 2>&1 | grep -v "^  label" | tail -${LINES_OUT:-6}
-rc=${PIPESTATUS[0]}
-cd /repo && git checkout -- . && find . -name "*.orig" -delete -o -name "*.rej" -delete
+cd "$T" || exit 9
+ok=1
+if ! git apply "$P" 2>/dev/null; then
+  if ! patch -p1 -s --fuzz=3 < "$P"; then echo "PATCH DOES NOT APPLY"; ok=0; fi
+fi
+rc=9
+if [ $ok = 1 ]; then
+  cd /verif && VERIF_REPO="$T" VERIF_EVIDENCE_SUFFIX="${MUT_SCRATCH:+.mut}" timeout 3000 ./vcheck run "$ID" --tier "$TIER" 2>&1 | grep -v "^  label" | tail -${LINES_OUT:-6}
+  rc=${PIPESTATUS[0]}
+fi
+if [ "${MUT_SCRATCH:-0}" = "1" ]; then
+  git -C /repo worktree remove --force "$W"; git -C /repo worktree prune
+else
+  cd /repo && git checkout -- . && find . \( -name "*.orig" -o -name "*.rej" \) -delete
+fi
 echo "mutcheck exit=$rc"
